@@ -112,6 +112,9 @@ def required_container(family: str, automatic: bool, default: bool) -> str:
     return "styles:styles"
 
 
+PENDING_LOOKUPS: list = []
+
+
 def gen_insert(rng, doc_type: str, snap=None):
     fam = rng.choice(STD + STD + ["list", "master-page", "page-layout", "font-face", "number"])
     mode = rng.choice(["common", "common", "automatic", "automatic", "automatic-unnamed", "default"])
@@ -126,6 +129,12 @@ def gen_insert(rng, doc_type: str, snap=None):
         if pool:
             fam, name = rng.choice(pool)
             mode = rng.choice(["common", "automatic"]) if fam not in ("font-face",) else "common"
+        # ... preferably one of a family WITHOUT dedicated search contexts (the data styles: number, date, ...) that sits among
+        # the automatic styles, inserted again as a common style: which of the two a lookup finds is the search order
+        data_pool = [(it[1], it[2]) for c in ("styles:automatic-styles", "content:automatic-styles") for it in (snap[c] or []) if it[2] and it[1] in ("number", "date")]
+        if data_pool and rng.random() < 0.4:
+            fam, name = rng.choice(data_pool)
+            mode = "common"
     return ("insert", fam, mode, name, rng.randrange(100))
 
 
@@ -281,6 +290,13 @@ def run(chk: core.Check) -> None:
     for (q, exp, case), ans in zip(reqs, answers):
         if exp != ans:
             chk.disagree({**case, "line": q[:400]}, f"impl {exp[:300]!r} != model {ans[:300]!r}")
+    for idx, (fcase, what) in PENDING_LOOKUPS:
+        if answers[idx] == reqs[idx][1]:
+            chk.fail(fcase, what)                                  # the documented search order finds the other style: C13-F2
+        else:
+            chk.fail({**fcase, "shadowed_by": None, "model_of_the_search_order_finds": answers[idx][:200]},
+                     what + " (and not the style the documented search order finds)")
+    PENDING_LOOKUPS.clear()
 
 
 def gen_prepared(rng, fams=None) -> list:
@@ -485,8 +501,14 @@ def one_insert(chk, rng, doc, op, before, case, reqs) -> bool:
         reqs.append((f"sy get {fam} {enc.name(ret)}", "none", case))
     if gx != xml:
         shadow = [c for c in CONTAINERS if c != want_c and any(it[1] == fam and it[2] == ret for it in (after[c] or []))]
-        chk.fail({**case, "clause": "lookup", "returned": ret, "found": None if got is None else "another style", "shadowed_by": shadow or None},
-                 "the document lookup does not find exactly the inserted style under the returned name")
+        failure = ({**case, "clause": "lookup", "returned": ret, "found": None if got is None else "another style", "shadowed_by": shadow or None},
+                   "the document lookup does not find exactly the inserted style under the returned name")
+        if shadow and got is not None:
+            # known finding C13-F2 only if the MODEL of the documented search order finds that other style too: decided once
+            # the driver has answered the `sy get` request just queued
+            PENDING_LOOKUPS.append((len(reqs) - 1, failure))
+        else:
+            chk.fail(*failure)
         return False
     if rng.random() < 0.3:
         try:
